@@ -216,6 +216,16 @@ func prelude(t *testing.T, sizes []int) {
 	}
 }
 
+// bigGroups: more than 65,536 distinct values in one column (70,001: a
+// multiple of neither 4096 nor any small worker count), grouped alone, under
+// a small parent column and above one: tens of thousands of result groups.
+func bigGroups(t *testing.T, n int) {
+	spec := gen.DataSpec{Recipe: &gen.Recipe{N: n, Cols: []gen.ColSpec{
+		{Name: "g", Kind: gen.KMod, K: 3, Prefix: "p"}, {Name: "u", Prefix: "r", Kind: gen.KUnique}}}}
+	taut := model.Not(model.Eq("g", "none"))
+	run(t, &Case{Data: spec, Queries: []Q{{taut, []string{"u"}}, {taut, []string{"g", "u"}}, {taut, []string{"u", "g"}}, {model.Eq("g", "p1"), []string{"u"}}}})
+}
+
 // bound trims a group-by list so that the nested refinement the index has to
 // do (groups at a level x values of the next column) stays within a budget;
 // trimming is construction, not rejection, and the number of trims is counted.
@@ -252,6 +262,9 @@ func TestQuick(t *testing.T) {
 		fix.Pinned(t, prop, replay)
 		prelude(t, []int{0, 1, 7, 1000, 1001, 4097, 65537})
 	}
+	if shard, _ := evid.Shard(); shard == 1 {
+		bigGroups(t, 70001)
+	}
 	fix.Check(t, "explicit", 150, func(rt *rapid.T) {
 		run(rt, drawCase(rt, gen.DataOpts{MaxRows: 40}, 10))
 	})
@@ -265,6 +278,10 @@ func TestThorough(t *testing.T) {
 	if shard == 0 {
 		fix.Pinned(t, prop, replay)
 		prelude(t, []int{0, 1, 7, 999, 1000, 1001, 4095, 4096, 4097, 65535, 65536, 65537, 131073})
+	}
+	if shard == 1 {
+		bigGroups(t, 70001)
+		bigGroups(t, 131075)
 	}
 	fix.Check(t, "explicit", 400, func(rt *rapid.T) {
 		run(rt, drawCase(rt, gen.DataOpts{MaxRows: 60}, 20))
